@@ -596,6 +596,29 @@ def bPatternPart (f : Nat) (t : Tree) : R PatternPart :=
     | none, some pe => (bChainEls N f pe).map (fun els => { var := v, shortest := false, allShortest := false, els := els })
     | none, none => un N a
 
+def bProjItem (f : Nat) (i : Tree) : R (Expr × Option String) :=
+  match kidOfRule N i "oC_Expression" with
+  | some e => (bExpr N f e).map (fun x => (x, (kidOfRule N i "oC_Variable").map (getText f)))
+  | none => un N i
+
+def bSortItem (f : Nat) (si : Tree) : R (Bool × Expr) :=
+  match kidOfRule N si "oC_Expression" with
+  | some e => (bExpr N f e).map (fun x => (!(hasTok N si "DESC" || hasTok N si "DESCENDING"), x))
+  | none => un N si
+
+def bOrder (f : Nat) (t : Tree) : R (Option (List (Bool × Expr))) :=
+  match kidOfRule N t "oC_Order" with
+  | none => .ok none
+  | some o => (mapM' (bSortItem N f) (kidsOfRule N o "oC_SortItem")).map some
+
+/-- the expression of an optional `SKIP e` / `LIMIT e` child -/
+def bSubExpr (f : Nat) (t : Tree) (rule : String) : R (Option Expr) :=
+  match kidOfRule N t rule with
+  | none => .ok none
+  | some s => match kidOfRule N s "oC_Expression" with
+    | some e => (bExpr N f e).map some
+    | none => un N s
+
 def bProjection (f : Nat) (t : Tree) : R Projection :=
   match kidOfRule N t "oC_ProjectionItems" with
   | none => un N t
@@ -604,21 +627,7 @@ def bProjection (f : Nat) (t : Tree) : R Projection :=
     let star : List (Expr × Option String) := match litTokens its with
       | "*" :: _ => [(.var "*", none)]
       | _ => []
-    let item (i : Tree) : R (Expr × Option String) :=
-      match kidOfRule N i "oC_Expression" with
-      | some e => (bExpr N f e).map (fun x => (x, (kidOfRule N i "oC_Variable").map (getText f)))
-      | none => un N i
-    let order : R (Option (List (Bool × Expr))) := match kidOfRule N t "oC_Order" with
-      | none => .ok none
-      | some o => (mapM' (fun si => match kidOfRule N si "oC_Expression" with
-          | some e => (bExpr N f e).map (fun x => (!(hasTok N si "DESC" || hasTok N si "DESCENDING"), x))
-          | none => un N si) (kidsOfRule N o "oC_SortItem")).map some
-    let sub (rule : String) : R (Option Expr) := match kidOfRule N t rule with
-      | none => .ok none
-      | some s => match kidOfRule N s "oC_Expression" with
-        | some e => (bExpr N f e).map some
-        | none => un N s
-    match mapM' item (kidsOfRule N its "oC_ProjectionItem"), order, sub "oC_Skip", sub "oC_Limit" with
+    match mapM' (bProjItem N f) (kidsOfRule N its "oC_ProjectionItem"), bOrder N f t, bSubExpr N f t "oC_Skip", bSubExpr N f t "oC_Limit" with
     | .ok items, .ok ord, .ok sk, .ok li => .ok { distinct := hasTok N t "DISTINCT", items := star ++ items, order := ord, skip := sk, limit := li }
     | .error e, _, _, _ => .error e
     | _, .error e, _, _ => .error e
@@ -665,22 +674,34 @@ def labelsOf (f : Nat) (t : Tree) : List String :=
     | some n => getText f n
     | none => "")
 
+def bSetItem (f : Nat) (it : Tree) : R SetItem :=
+  let op := if hasTok N it "T__1" then "=" else if hasTok N it "T__7" then "+=" else ""
+  let left : R Expr := match kidOfRule N it "oC_PropertyExpression", kidOfRule N it "oC_Variable" with
+    | some pe, _ => bPropertyExpression N f pe
+    | none, some v => .ok (.var (getText f v))
+    | none, none => un N it
+  let right : R SetRhs := match kidOfRule N it "oC_Expression", kidOfRule N it "oC_NodeLabels" with
+    | some e, _ => (bExpr N f e).map SetRhs.expr
+    | none, some ls => .ok (.kinds (labelsOf N f ls))
+    | none, none => un N it
+  match left, right with
+  | .ok l, .ok r => .ok { left := l, op := op, right := r }
+  | .error e, _ => .error e
+  | _, .error e => .error e
+
 /-- SetVisitor on one oC_Set -/
-def bSet (f : Nat) (t : Tree) : R (List SetItem) :=
-  mapM' (fun it =>
-    let op := if hasTok N it "T__1" then "=" else if hasTok N it "T__7" then "+=" else ""
-    let left : R Expr := match kidOfRule N it "oC_PropertyExpression", kidOfRule N it "oC_Variable" with
-      | some pe, _ => bPropertyExpression N f pe
-      | none, some v => .ok (.var (getText f v))
-      | none, none => un N it
-    let right : R SetRhs := match kidOfRule N it "oC_Expression", kidOfRule N it "oC_NodeLabels" with
-      | some e, _ => (bExpr N f e).map SetRhs.expr
-      | none, some ls => .ok (.kinds (labelsOf N f ls))
-      | none, none => un N it
-    match left, right with
-    | .ok l, .ok r => .ok { left := l, op := op, right := r }
-    | .error e, _ => .error e
-    | _, .error e => .error e) (kidsOfRule N t "oC_SetItem")
+def bSet (f : Nat) (t : Tree) : R (List SetItem) := mapM' (bSetItem N f) (kidsOfRule N t "oC_SetItem")
+
+def bRemoveItem (f : Nat) (it : Tree) : R RemoveItem :=
+  match kidOfRule N it "oC_PropertyExpression", kidOfRule N it "oC_Variable", kidOfRule N it "oC_NodeLabels" with
+  | some pe, _, _ => (bPropertyExpression N f pe).map RemoveItem.prop
+  | none, some v, some ls => .ok (.kinds (getText f v) (labelsOf N f ls))
+  | _, _, _ => un N it
+
+def bMergeAction (f : Nat) (a : Tree) : R (Bool × Bool × List SetItem) :=
+  match kidOfRule N a "oC_Set" with
+  | some st => (bSet N f st).map (fun items => (hasTok N a "ON" && hasTok N a "CREATE", hasTok N a "ON" && hasTok N a "MATCH", items))
+  | none => un N a
 
 /-- UpdatingClauseVisitor -/
 def bUpdating (f : Nat) (t : Tree) : R Updating :=
@@ -693,19 +714,13 @@ def bUpdating (f : Nat) (t : Tree) : R Updating :=
       | some p => (mapM' (bPatternPart N f) (kidsOfRule N p "oC_PatternPart")).map Updating.create
       | none => un N k
     | "oC_Delete" => (mapM' (bExpr N f) (kidsOfRule N k "oC_Expression")).map (Updating.delete (hasTok N k "DETACH"))
-    | "oC_Remove" =>
-      (mapM' (fun it => match kidOfRule N it "oC_PropertyExpression", kidOfRule N it "oC_Variable", kidOfRule N it "oC_NodeLabels" with
-        | some pe, _, _ => (bPropertyExpression N f pe).map RemoveItem.prop
-        | none, some v, some ls => .ok (.kinds (getText f v) (labelsOf N f ls))
-        | _, _, _ => un N it) (kidsOfRule N k "oC_RemoveItem")).map Updating.remove
+    | "oC_Remove" => (mapM' (bRemoveItem N f) (kidsOfRule N k "oC_RemoveItem")).map Updating.remove
     | "oC_Set" => (bSet N f k).map Updating.set
     | "oC_Merge" =>
       match kidOfRule N k "oC_PatternPart" with
       | none => un N k
       | some pp =>
-        match bPatternPart N f pp, mapM' (fun a => match kidOfRule N a "oC_Set" with
-            | some st => (bSet N f st).map (fun items => (hasTok N a "ON" && hasTok N a "CREATE", hasTok N a "ON" && hasTok N a "MATCH", items))
-            | none => un N a) (kidsOfRule N k "oC_MergeAction") with
+        match bPatternPart N f pp, mapM' (bMergeAction N f) (kidsOfRule N k "oC_MergeAction") with
         | .ok part, .ok acts => .ok (.merge part acts)
         | .error e, _ => .error e
         | _, .error e => .error e
@@ -748,7 +763,7 @@ def bParts (f : Nat) : List Tree → List Reading → List Updating → R (List 
 
 /-- QueryVisitor on the whole tree -/
 def build (t : Tree) : R Query :=
-  let f := size t + 2
+  let f := 2 * size t + 8
   if ruleNameOf N t != "oC_Cypher" then un N t else
   match kidOfRule N t "oC_QueryOptions", kidOfRule N t "oC_Statement" with
   | some qo, some st =>
